@@ -119,4 +119,20 @@ theorem mem_mergeFirst_man {xs ys : List (Nec × α)} (hys : (names ys).Nodup) (
     simp only at this
     simp [this]
 
+theorem mergeNec_names (xs ys : List (Nec × α)) (hys : (names ys).Nodup) :
+    names (mergeNec xs ys) = names xs ++ (names ys).filter (fun a => a ∉ names xs) := by
+  unfold mergeNec
+  rw [names_foldl_second _ _ hys, names_mergeFirst]
+
+theorem mergeNec_man_iff (xs ys : List (Nec × α)) (hys : (names ys).Nodup) (a : α) :
+    (Nec.man, a) ∈ mergeNec xs ys ↔ (Nec.man, a) ∈ xs ∧ (Nec.man, a) ∈ ys := by
+  unfold mergeNec
+  obtain ⟨tail, h1, h2⟩ := foldl_second_prefix (mergeFirst xs ys) ys
+  rw [h1, List.mem_append, mem_mergeFirst_man hys]
+  constructor
+  · rintro (h | h)
+    · exact h
+    · have := (h2 _ h).1; cases this
+  · exact Or.inl
+
 end Xsg
